@@ -25,11 +25,12 @@ META["text"] = (
     "C07_jac_column_partial: for a hinge or slide joint anywhere in a serial chain (any number of further hinge/slide/ball joints, body ends and child-body offsets between the joint and the point, unit quaternions/axes) "
     "that column is the derivative (Coquelicot is_derive, componentwise) of the world position of a body-fixed point with respect to that joint's coordinate, and (same theorem) the rotation column is the angular velocity (d/dq of xmat u = xaxis x xmat u for every u). "
     "C07_tree_body_is_chain: in ANY tree the frame of every regular body (not free-floating, not mocap, parent not the world) is exactly such a chain segment (child offset, its joints, end of body) applied to the frame of its parent. "
+    "C07_eq_poly_row (constraint rows): for joint / tendon equalities with a quartic coupling polynomial the row jac0 - deriv*jac1 written into efc_J is, entry by entry, the derivative of efc_pos = pos0 - ref0 - c0 - poly(pos1 - ref1) whenever the object rows are the derivatives of the object positions (all coefficients, all sizes; tied on every run to efc_pos / efc_J of generated and fixed-corpus equalities). "
     "Partial / not proved: the statement about a general tree as a function of one joint coordinate (that the state before the joint and all non-descendants do not depend on it, and the composition of the segments along the ancestor path); ball/free Jacobian columns, mj_jacDot, mj_jacSubtreeCom, object velocities and constraint rows have no theorem (oracle only). "
     "Tie: on every run the model is evaluated at binary64 inside Coq on the tree parameters exported from the compiled mjModel (body_parentid, body_pos, body_quat, mocap pose, jnt_type, jnt_pos, jnt_axis, qpos, qpos0, inertial/geom/site/camera offsets and sameframe codes) "
     "and compared with xpos, xquat, xmat, xanchor, xaxis, xipos, ximat, geom/site/cam frames, mj_jac columns (all dofs, all bodies), mj_integratePos and mj_differentiatePos of the working tree. "
     "Oracle on implementation output: rotation checks (1e-10) for body/inertial/geom/site/camera frames; mj_jac, mj_jacBody, mj_jacBodyCom, mj_jacSubtreeCom, mj_jacGeom, mj_jacSite, mj_jacSparse, mj_jacPointAxis (and camera points) against central finite differences over mj_integratePos perturbations; "
-    "object velocities (mj_objectVelocity for xbody, body, geom, site, camera, world and local orientation) and cvel against J qvel and, independently of every Jacobian, against the finite difference of the object's position and orientation along qvel - on objects attached to jointless links too; mj_jacDot against the finite difference of J along qvel; equality / limit constraint rows of efc_J against finite differences of efc_pos.")
+    "object velocities (mj_objectVelocity for xbody, body, geom, site, camera, world and local orientation) and cvel against J qvel and, independently of every Jacobian, against the finite difference of the object's position and orientation along qvel - on objects attached to jointless links too; mj_jacDot against the finite difference of J along qvel; equality / limit constraint rows of efc_J (dense, and the sparse rows densified) against finite differences of efc_pos, with joint and tendon equalities (one and two objects) whose coupling polynomial takes every zero/non-zero combination of its five coefficients.")
 META["note"] = ("Trusted: Coq kernel + the standard-library real-number axioms listed in trusted_base; hand-written models Model/Kinematics.v and Model/Spatial.v; Lib/FloatFn.v (executable side); "
                 "correspondence harness (gcc, driver c07_kin.c, generator mjgen.h).")
 
@@ -218,6 +219,47 @@ def k_cases(D):
     a = D["qpos"] + D["qvel"] + D["dt"] + D["qpos_int"]
     out.append((case(4, a=F.flist(a), tys=F.zlist(D["jnt_type"]), nn="(%d%%nat, %d%%nat)" % (nq, nv), exp=D["qpos_int"] + D["qvel_diff"], tr="[]"), "mj_integratePos/mj_differentiatePos"))
     return out
+
+
+def eq_cases(D):
+    """Coq case literals for the joint / tendon equality rows of one E / Q block: (inputs, efc_pos ++ dense efc_J row)"""
+    out = []
+    nv, nd = D["nv"][0], D["neqdata"][0]
+    seen_e = set()
+    for i in range(D["nefc"][0]):
+        if D["efc_type"][i] != 0:
+            continue
+        e = D["efc_id"][i]
+        if D["eq_type"][e] not in (2, 3) or e in seen_e:
+            continue
+        seen_e.add(e)
+        c = D["eq_data"][nd * e:nd * e + 5]
+        objs = []
+        for o in (D["eq_obj1id"][e], D["eq_obj2id"][e]):
+            if o < 0:
+                objs.append(None)
+            elif D["eq_type"][e] == 2:
+                a = D["jnt_qposadr"][o]
+                objs.append((D["qpos"][a], D["qpos0"][a], [1.0 if k == D["jnt_dofadr"][o] else 0.0 for k in range(nv)]))
+            else:
+                objs.append((D["ten_length"][o], D["tendon_length0"][o], D["ten_J"][o * nv:(o + 1) * nv]))
+        exp = [D["efc_pos"][i]] + D["efc_J"][i * nv:(i + 1) * nv]
+        if objs[1] is None:
+            out.append("(false, %s, %s, []%%float, %s)" % (F.flist(c + [objs[0][0], objs[0][1], 0.0, 0.0]), F.flist(objs[0][2]), F.flist(exp)))
+        else:
+            out.append("(true, %s, %s, %s, %s)" % (F.flist(c + [objs[0][0], objs[0][1], objs[1][0], objs[1][1]]), F.flist(objs[0][2]), F.flist(objs[1][2]), F.flist(exp)))
+    return out
+
+
+EQ_PRE = "\n".join([
+    "Definition g (l : list float) (i : nat) : float := nth i l 0%float.",
+    "Definition chk (c : bool * list float * list float * list float * list float) : bool :=",
+    "  let '(two, a, j0, j1, expd) := c in",
+    "  fclose_list %s" % TOL,
+    "    (if two then eqPos (g a 0) (g a 1) (g a 2) (g a 3) (g a 4) (g a 5) (g a 6) (g a 7) (g a 8)",
+    "                 :: eqRow j0 j1 (eqDeriv (g a 1) (g a 2) (g a 3) (g a 4) (g a 7) (g a 8))",
+    "     else eqPos1 (g a 0) (g a 5) (g a 6) :: j0) expd.",
+]) + "\n"
 
 
 # ------------------------------------------------------------------------------------- oracles on implementation output
@@ -465,11 +507,19 @@ def oracle_efc(D):
         if not ok:
             continue
         nrows += 1
-        row = D["efc_J"][i * nv:(i + 1) * nv]
-        sc = 1 + max(abs(x) for x in row + fd)
-        if maxdiff(row, fd) > 1e-5 * sc:
-            f.append(("efc_J row = d efc_pos / d q (central difference over mj_integratePos)",
-                      {"row": i, "efc_type": ty[i], "efc_id": idd[i], "within": within[i]}, fd, row))
+        variants = [("dense", D["efc_J"][i * nv:(i + 1) * nv])]
+        if D.get("nefc_sparse", [None])[0] == nefc and D.get("sp_efc_type") == ty and D.get("sp_efc_id") == idd:
+            variants.append(("sparse", D["efc_Jsp"][i * nv:(i + 1) * nv]))
+        for (kind, row) in variants:
+            sc = 1 + max(abs(x) for x in row + fd)
+            if maxdiff(row, fd) > 1e-5 * sc:
+                det = {"row": i, "efc_type": ty[i], "efc_id": idd[i], "within": within[i], "jacobian": kind}
+                if ty[i] == 0:
+                    e = idd[i]
+                    det["eq_type"] = D["eq_type"][e]
+                    det["eq_data"] = D["eq_data"][D["neqdata"][0] * e:D["neqdata"][0] * e + 5]
+                f.append(("efc_J row = d efc_pos / d q (central difference over mj_integratePos)", det, fd, row))
+                break
     return f, nrows
 
 
@@ -478,7 +528,7 @@ def run(ctx):
     rng = ctx.rng
     big = ctx.tier != "quick"
     ctx.coq_props(allowed_axioms=F.STD_AXIOMS,
-                  extra_targets=["Lib/Num.vo", "Lib/NumF.vo", "Lib/FloatFn.vo", "Model/Spatial.vo", "Model/Kinematics.vo"])
+                  extra_targets=["Lib/Num.vo", "Lib/NumF.vo", "Lib/FloatFn.vo", "Model/Spatial.vo", "Model/Kinematics.vo", "Model/EqPoly.vo"])
     exe = ctx.driver("c07_kin", ["c07_kin.c"])
     if exe is None:
         return
@@ -502,17 +552,19 @@ def run(ctx):
         jreq.append((rng.randrange(1, 10 ** 6), feats[i % len(feats)], nb, 0 if i % 7 == 6 else 1 + i))
     jreq.sort(key=lambda r: r[2])
     ereq = []
-    ne = 6 if not big else 40
+    ne = 8 if not big else 50
+    nq_fixed = 6 if not big else 12       # fixed corpus of coupling polynomials (driver op Q)
     efeat = base | FEAT["FREE"] | FEAT["BALL"] | FEAT["SLIDE"] | FEAT["EQUALITY"] | FEAT["LIMIT"] | FEAT["TENDON"]
     for i in range(ne):
         ereq.append((rng.randrange(1, 10 ** 6), efeat | (FEAT["MULTITREE"] if i % 2 else 0) | (FEAT["FIXED"] if i % 3 != 2 else 0), rng.choice([2, 3, 4, 5]), 1 + i))
-    inp = "".join("K %d %d %d %d\n" % r for r in kreq) + "".join("J %d %d %d %d\n" % r for r in jreq) + "".join("E %d %d %d %d\n" % r for r in ereq) + "R\n"
+    inp = "".join("K %d %d %d %d\n" % r for r in kreq) + "".join("J %d %d %d %d\n" % r for r in jreq) + "".join("E %d %d %d %d\n" % r for r in ereq) + "".join("Q %d\n" % k for k in range(nq_fixed)) + "R\n"
     rc, out, err = ctx.run(exe, inp)
     blocks = parse_blocks(out)
-    if rc != 0 or len(blocks) != len(kreq) + len(jreq) + len(ereq) + 1:
-        ctx.broken.append(("correspondence", "driver c07_kin failed", "rc=%s blocks=%d/%d %s" % (rc, len(blocks), len(kreq) + len(jreq) + len(ereq) + 1, err[-800:])))
+    if rc != 0 or len(blocks) != len(kreq) + len(jreq) + len(ereq) + nq_fixed + 1:
+        ctx.broken.append(("correspondence", "driver c07_kin failed", "rc=%s blocks=%d/%d %s" % (rc, len(blocks), len(kreq) + len(jreq) + len(ereq) + nq_fixed + 1, err[-800:])))
         return
     kb, jb, eb = blocks[:len(kreq)], blocks[len(kreq):len(kreq) + len(jreq)], blocks[len(kreq) + len(jreq):-1]
+    ereq = ereq + [("Q", k) for k in range(nq_fixed)]
     rb = blocks[-1]
     seen = set()
 
@@ -578,14 +630,36 @@ def run(ctx):
             report(law, req, "J", detail, exp, obs, "C07_jac_column_partial")
         counts["jacobian_columns"] += D["nv"][0] * (4 * D["nbody"][0] + D["ngeom"][0] + D["nsite"][0] + D["ncam"][0])
         counts["velocity_bodies"] += D["nbody"][0]
+    eqstrata = {}
+    eqlits, eqdescr = [], []
+    for req, D in zip(ereq, eb):
+        if "ERR" not in D and "eq_data" in D:
+            for lit in eq_cases(D):
+                eqlits.append(lit)
+                eqdescr.append(req)
     for req, D in zip(ereq, eb):
         if "ERR" in D:
-            ctx.violation("impl_violation", {"request": "E %d %d %d %d" % tuple(req)}, expected="no mju_error", observed=D["ERR"], theorem="C07", signature={"law": "no error"})
+            ctx.violation("impl_violation", {"request": ("E %d %d %d %d" % tuple(req)) if req[0] != "Q" else "Q %d" % req[1]}, expected="no mju_error", observed=D["ERR"], theorem="C07", signature={"law": "no error"})
             continue
         fl, nrows = oracle_efc(D)
         counts["efc_rows"] += nrows
         for (law, detail, exp, obs) in fl:
-            report(law, req, "E", detail, exp, obs, "C07 (oracle only)")
+            if req[0] == "Q":
+                report(law, (req[1], 0, 0, 0), "Q", detail, exp, obs, "C07_eq_poly_row")
+            else:
+                report(law, req, "E", detail, exp, obs, "C07_eq_poly_row")
+        for i in range(D["nefc"][0]):
+            if D["efc_type"][i] == 0 and D["eq_type"][D["efc_id"][i]] in (2, 3):
+                e = D["efc_id"][i]
+                c = D["eq_data"][D["neqdata"][0] * e:D["neqdata"][0] * e + 5]
+                kind = ("joint" if D["eq_type"][e] == 2 else "tendon") + ("_pair" if D["eq_obj2id"][e] >= 0 else "_single")
+                eqstrata[kind] = eqstrata.get(kind, 0) + 1
+                if D["eq_obj2id"][e] >= 0:
+                    for k in range(1, 5):
+                        if c[k] != 0:
+                            eqstrata["%s_degree%d_term" % (kind, k)] = eqstrata.get("%s_degree%d_term" % (kind, k), 0) + 1
+        if D.get("nefc_sparse", [None])[0] == D["nefc"][0]:
+            eqstrata["blocks_with_sparse_rows_checked"] = eqstrata.get("blocks_with_sparse_rows_checked", 0) + 1
     # support (repaired defect): a fixed tendon listing a joint twice used to get duplicate columns in ten_J, which mju_sparse2dense
     # overwrote, so the dense efc_J tendon rows lost the coefficient; mj_compile now rejects such tendons.  If one is accepted again,
     # its constraint rows are judged by the same finite-difference oracle.
@@ -605,6 +679,15 @@ def run(ctx):
             descr.append((req, what))
     fails = ctx.coq_eval("c07", "From Coq Require Import ZArith PrimFloat Bool.\nFrom MJV Require Import Lib.Num Lib.NumF Lib.FloatFn Model.Spatial Model.Kinematics.\nOpen Scope nat_scope.",
                          cases, "chk", pre=coq_pre(), shard=12 if not big else 40)
+    efails = ctx.coq_eval("c07eq", "From Coq Require Import ZArith PrimFloat Bool.\nFrom MJV Require Import Lib.Num Lib.NumF Model.EqPoly.\nOpen Scope nat_scope.",
+                          eqlits, "chk", pre=EQ_PRE, shard=100)
+    if efails:
+        req = eqdescr[efails[0]]
+        ctx.violation("correspondence", {"request": ("Q %d" % req[1]) if req[0] == "Q" else "E %d %d %d %d" % tuple(req), "part": "joint/tendon equality row"},
+                      expected="model output (Model/EqPoly.v at binary64, tolerance 2^-30 scaled)", observed="efc_pos / efc_J row of the implementation differs", found_input=False,
+                      theorem="correspondence c07 equality row", signature={"part": "joint/tendon equality row"},
+                      note="implementation and Coq model disagree; see the oracle violations (if any) for a failing input")
+    ctx.cov["support"]["equality_row_evaluations"] = len(eqlits)
     seenw = set()
     for i in fails:
         req, what = descr[i]
@@ -617,17 +700,21 @@ def run(ctx):
                       note="implementation and Coq model disagree on this generated tree; see the oracle violations (if any) for a failing input")
     # ---------------- coverage
     nontriv = sum(1 for (req, what) in descr if req[2] >= 2)
-    ctx.cov["evaluations"] = len(cases)
+    ctx.cov["evaluations"] = len(cases) + len(eqlits)
     ctx.cov["distinct_nontrivial"] = nontriv
-    ctx.cov["rule"] = ("one Coq evaluation per (generated tree, state, part) with part in {mj_kinematics1 outputs, mj_local2Global outputs, mj_jac of an attached point of every body, cdof, "
+    ctx.cov["rule"] = ("one Coq evaluation per joint / tendon equality row (Model/EqPoly.v) and one per (generated tree, state, part) with part in {mj_kinematics1 outputs, mj_local2Global outputs, mj_jac of an attached point of every body, cdof, "
                        "mj_integratePos + mj_differentiatePos}; trees from mjgen.h (all joint types, multi-joint bodies, multi-tree, mocap, sites, cameras, 1..8 bodies) extended by c07_kin.c with jointless bodies (fixed links under moving bodies, chains of fixed links, moving bodies under fixed links, static bodies welded to the world, each with geoms / sites / cameras), states: reference configuration, random, exactly-zero angles, "
                        "angles beyond one turn, unnormalised / nearly-unit ball, free and mocap quaternions; non-trivial = tree with at least two moving bodies")
     ctx.cov["samples"] = [{"request": "K %d %d %d %d" % tuple(d[0]), "part": d[1]} for d in (descr[:1] + descr[len(descr) // 2:len(descr) // 2 + 1] + descr[-1:])]
-    ctx.cov["correspondence_disagreements"] = len(fails)
+    ctx.cov["correspondence_disagreements"] = len(fails) + len(efails)
     ctx.cov["support"]["oracle_counts"] = counts
     ctx.cov["support"]["joint_types_seen_free_ball_slide_hinge"] = jtypes_seen
     ctx.cov["support"]["oracle_requests"] = {"J": len(jreq), "E": len(ereq)}
     ctx.cov["support"]["tree_strata"] = {"tie": strata["K"], "oracle": strata["J"]}
+    ctx.cov["support"]["equality_polynomial_strata"] = eqstrata
+    for key in ["joint_pair_degree%d_term" % k for k in range(1, 5)] + ["tendon_pair_degree4_term", "blocks_with_sparse_rows_checked"]:
+        if eqstrata.get(key, 0) == 0:
+            ctx.broken.append(("correspondence", "constraint-row oracle: stratum '%s' was not reached" % key, str(eqstrata)))
     for grp, name in (("K", "tie"), ("J", "Jacobian / velocity oracle")):
         for key in ("fixed_link_under_moving_body", "objects_on_fixed_links", "multi_joint_body"):
             if strata[grp][key] == 0:
